@@ -59,11 +59,35 @@ SEARCH = {
         lets=["let sg : C01.Seg := ⟨lo, hi, 0⟩"], real="decide (lo ≤ hi) && decide (0 ≤ r1) && decide (0 ≤ r2) && decide (0 ≤ off)",
         gen="Gen.ax_pos_num r1 r2 off sg.inc", model="sg.axOf off r1 r2"),
 }
+
+# C03: the symmetry-operation classes (48 kernels, uniform signatures: see SO_KINDS in tools/c2lean.py)
+_SO_KINDS = ["z_shift", "swap_xmx_zq", "swap_xmy_yx_zq", "swap_xy_yx_zq", "swap_xmy_yx", "swap_xy_yx", "swap_xmx", "swap_ymy",
+             "swap_zq", "swap_xmx_ymy_zq", "swap_xy_ymx_zq", "swap_xy_ymx", "swap_xmy_ymx", "swap_ymy_zq", "swap_xmx_ymy",
+             "swap_xmy_ymx_zq"]
+_SOR = "decide (V ≥ 4) && V % 4 == 0 && decide (0 ≤ view) && decide (view < V)"
+for _k in _SO_KINDS:
+    SEARCH["so_%s_bin" % _k] = dict(
+        theorems=["bridge_so_%s_bin" % _k],
+        vars=[("V", "Int", -2, 9), ("a", "Int", -2, 2), ("seg", "Int", -2, 2), ("view", "Int", -2, 9), ("ax", "Int", -1, 2),
+              ("tang", "Int", -2, 2), ("tof", "Int", -1, 1)], real=_SOR,
+        gen="Gen.so_%s_bin V a seg view ax tang tof" % _k,
+        model="(let r := (⟨.%s, V, a, 0, 0⟩ : C03.SymOp).onBin ⟨seg, view, ax, tang, tof⟩; (r.seg, r.view, r.ax, r.tang, r.tof))" % _k)
+    SEARCH["so_%s_vs" % _k] = dict(
+        theorems=["bridge_so_%s_vs" % _k],
+        vars=[("V", "Int", -2, 17), ("seg", "Int", -3, 3), ("view", "Int", -2, 17)], real=_SOR,
+        gen="Gen.so_%s_vs V seg view" % _k,
+        model="(let r := (⟨.%s, V, 0, 0, 0⟩ : C03.SymOp).onVS ⟨view, seg⟩; (r.seg, r.view))" % _k)
+    SEARCH["so_%s_img" % _k] = dict(
+        theorems=["bridge_so_%s_img" % _k],
+        vars=[("zs", "Int", -3, 3), ("q", "Int", -3, 6), ("z", "Int", -3, 6), ("y", "Int", -3, 3), ("x", "Int", -3, 3)],
+        gen="Gen.so_%s_img zs q z y x" % _k,
+        model="(let r := (⟨.%s, 0, 0, zs, q⟩ : C03.SymOp).onVoxel ⟨z, y, x⟩; (r.z, r.y, r.x))" % _k)
+SO_KERNELS = [k for k in SEARCH if k.startswith("so_")]
 GEN_DIR = ("StirVerif", "Gen")
 
 
 def _search_source(kernels):
-    out = ["import StirVerif.Gen.Kernels", "import StirVerif.C01.Model", "import StirVerif.C06.Model", "open StirVerif", "",
+    out = ["import StirVerif.Gen.Kernels", "import StirVerif.C01.Model", "import StirVerif.C06.Model", "import StirVerif.C03.Model", "open StirVerif", "",
            "/-- 0, 1, …, hi, then -1, -2, …, lo: realistic values first -/",
            "def rng (lo hi : Int) : List Int :=",
            "  ((List.range (hi + 1).toNat).map fun (k : Nat) => (k : Int)).filter (fun x => decide (lo ≤ x)) ++",
@@ -246,7 +270,7 @@ def _gate_locked(chk, report_for, vlib, c2lean, t0, text, report):
     found = {}
     search_out = ""
     if searchable:
-        okk, outk = vlib.lean_build(targets=("StirVerif.Gen.Kernels", "StirVerif.C01.Model", "StirVerif.C06.Model"))
+        okk, outk = vlib.lean_build(targets=("StirVerif.Gen.Kernels", "StirVerif.C01.Model", "StirVerif.C06.Model", "StirVerif.C03.Model"))
         if okk:
             sf = os.path.join(vlib.OUT, "GenSearch.lean")
             with open(sf, "w") as fh:
